@@ -811,6 +811,7 @@ func runInterleave(r *vs.Rand, i int, seed uint64, out *vs.Out) {
 			}
 		}
 	}
+	var doAct func(s *vs.Sim, k ref, choice int)
 	act := func(s *vs.Sim) {
 		if len(kids) == 0 {
 			return
@@ -822,6 +823,9 @@ func runInterleave(r *vs.Rand, i int, seed uint64, out *vs.Out) {
 			k = orphans[r.Intn(len(orphans))]
 			choice = []int{2, 2, 0, 1, 3, 11}[r.Intn(6)]
 		}
+		doAct(s, k, choice)
+	}
+	doAct = func(s *vs.Sim, k ref, choice int) {
 		switch choice {
 		case 11: // deleted and replaced under the same name by an object that does not match the parent's selector (new UID)
 			o := s.GetObj(k.c.group(), k.c.Resource, k.ns, k.name)
@@ -921,6 +925,13 @@ func runInterleave(r *vs.Rand, i int, seed uint64, out *vs.Out) {
 	}
 	// stale cache = the action happens after the caches were filled; interleaving = at request index k
 	w.fillCaches()
+	if len(orphans) > 0 && r.Chance(25) {
+		// between the live read and the write of one orphan's adoption: it is handed to the other parent, deleted, replaced
+		// (matching or not) or relabelled exactly then
+		k := orphans[r.Intn(len(orphans))]
+		choice := []int{2, 0, 1, 1, 3, 11, 11}[r.Intn(7)]
+		w.sim.EnvBefore = append(w.sim.EnvBefore, &vs.EnvTrigger{Verb: "update", Resource: k.c.Resource, Name: k.name, F: func(s *vs.Sim) { doAct(s, k, choice) }})
+	}
 	na := 1 + r.Intn(2)
 	for j := 0; j < na; j++ {
 		if r.Chance(35) {
